@@ -245,6 +245,14 @@ class MinerWatcher:
 
         summary, current_height, transactions = self.mining_args[miner_id]
 
+        # work on the chain state the node serves *now*, not on the copy taken when a candidate was last assembled:
+        # blocks the networking layer has added (or rolled back) since then must not be undone by the hand-over below.
+        self.coinstate = self.network_thread.local_peer.chain_manager.coinstate
+
+        if summary.previous_block_hash not in self.coinstate.block_by_hash:
+            # the candidate's parent is no longer part of the chain (it was rolled back): nothing to build on
+            return
+
         evidence = construct_pow_evidence_after_scrypt(summary_hash, self.coinstate, summary,
                                                        current_height, transactions)
 
